@@ -1,5 +1,204 @@
-(* C03 — placeholder; the theorems are added as BT/*Proofs.v land *)
-From Coq Require Import List NArith ZArith Bool.
-From Emu.BT Require Import Types Mutate Server.
-Example C03_model_runs : snd (step nil (mkCall (BGetTable nil) 0%Z nil)) = fail cNotFound.
-Proof. reflexivity. Qed.
+(* C03 — Bigtable: ReadRows returns exactly the requested rows, once, in key order.
+   Only statements here; the RowSet meaning is BT/RowSetSpec.v, proofs are in BT/ScanProofs.v
+   (and BT/RowSetProofs.v for merge_union). *)
+From Coq Require Import List NArith ZArith Bool Sorting.
+Import ListNotations.
+From Emu.Common Require Import Bytes Str StrProofs.
+From Emu.BT Require Import Types Mutate Filter RowSet RowSetProofs RowSetSpec Server ScanProofs.
+Local Open Scope Z_scope.
+
+(* ---- bound encoding ---- *)
+
+(* the byte range the code scans for a RowRange holds exactly the range's keys (open start /
+   closed end are encoded by appending a 0 byte).  partial: guard [closed_end_nonempty] *)
+Theorem C03_encode_range_spec_partial : forall rr k, k <> [] -> closed_end_nonempty rr ->
+  (in_srange (encode_range rr) k <-> in_row_range rr k).
+Proof. exact encode_range_spec_partial. Qed.
+Print Assumptions C03_encode_range_spec_partial.
+
+(* the full statement is false: end_key_closed = "" passes validation (it counts as unset there)
+   but the scan then selects nothing *)
+Theorem C03_encode_range_closed_empty_end_refuted :
+  exists rr k, k <> [] /\ in_row_range rr k /\ ~ in_srange (encode_range rr) k /\ range_ok rr = true.
+Proof. exact encode_range_closed_empty_end_refuted. Qed.
+Print Assumptions C03_encode_range_closed_empty_end_refuted.
+
+Theorem C03_key_range_spec : forall x k, in_srange (key_range x) k <-> k = x.
+Proof. exact key_range_spec. Qed.
+Print Assumptions C03_key_range_spec.
+
+Theorem C03_in_srange_b_reflects : forall r k, in_srange_b r k = true <-> in_srange r k.
+Proof. exact in_srange_b_iff. Qed.
+Print Assumptions C03_in_srange_b_reflects.
+
+(* ---- validation ---- *)
+
+(* "validate_spec": a range is rejected iff both ends carry non-empty keys and start > end *)
+Theorem C03_validate_spec : forall rr, range_ok rr = false <-> range_inverted rr.
+Proof. exact range_ok_spec. Qed.
+Print Assumptions C03_validate_spec.
+
+Theorem C03_readrows_rejects_iff : forall ranges,
+  forallb range_ok ranges = false <-> exists rr, In rr ranges /\ range_inverted rr.
+Proof. exact readrows_rejects_iff. Qed.
+Print Assumptions C03_readrows_rejects_iff.
+
+Theorem C03_step_readrows : forall s tbl t keys ranges limit now coins,
+  alookup tbl s = Some t ->
+  step s (mkCall (BReadRows tbl keys ranges None limit) now coins) =
+  (s, if forallb range_ok ranges
+      then ok (YRows (scan_all t None limit (scan_ranges keys ranges) 0 coins []))
+      else fail cInvalidArgument).
+Proof. exact step_readrows. Qed.
+Print Assumptions C03_step_readrows.
+
+(* ---- merging ---- *)
+
+(* the merged ranges cover exactly the union of the given ones (all range lists) *)
+Theorem C03_merge_union : forall l k, in_any (merge_simple_ranges l) k <-> in_any l k.
+Proof. exact merge_union. Qed.
+Print Assumptions C03_merge_union.
+
+(* the scanned ranges cover exactly the requested keys; empty RowSet = whole table *)
+Theorem C03_scan_ranges_union_partial : forall keys ranges k, k <> [] -> Forall closed_end_nonempty ranges ->
+  (in_any (scan_ranges keys ranges) k <-> requested keys ranges k).
+Proof. exact scan_ranges_union_partial. Qed.
+Print Assumptions C03_scan_ranges_union_partial.
+
+(* consecutive output ranges: the earlier one is bounded and ends strictly below the next start *)
+Theorem C03_merge_sorted_disjoint : forall l pre a b post,
+  merge_simple_ranges l = pre ++ a :: b :: post -> re a <> [] /\ lex_lt (re a) (rs b).
+Proof. exact merge_sorted_disjoint. Qed.
+Print Assumptions C03_merge_sorted_disjoint.
+
+(* pairwise, and ascending by start *)
+Theorem C03_merge_sorted_disjoint_strong : forall l,
+  StronglySorted (fun a b => re a <> [] /\ lex_lt (re a) (rs b)) (merge_simple_ranges l).
+Proof. exact merge_sorted_disjoint_strong. Qed.
+Print Assumptions C03_merge_sorted_disjoint_strong.
+
+Theorem C03_merge_sorted_by_start : forall l,
+  StronglySorted (fun a b => lex_le (rs a) (rs b)) (merge_simple_ranges l).
+Proof. exact merge_sorted_by_start. Qed.
+Print Assumptions C03_merge_sorted_by_start.
+
+(* no key is in two output ranges *)
+Theorem C03_merge_no_overlap : forall l pre a mid b post k,
+  merge_simple_ranges l = pre ++ a :: mid ++ b :: post -> in_srange a k -> ~ in_srange b k.
+Proof. exact merge_no_overlap. Qed.
+Print Assumptions C03_merge_no_overlap.
+
+(* ---- the scan ---- *)
+
+(* "readrows_exact": no filter, no limit, table in ascending key order without the empty key:
+   the result holds exactly the stored rows that are requested and have output, with the
+   scrubbed stored families, in strictly ascending key order, each once.
+   partial: guard [closed_end_nonempty] on the ranges (see the refutation above) *)
+Theorem C03_readrows_exact_partial : forall t keys ranges limit coins,
+  asorted (t_rows t) -> Forall (fun p => fst p <> []) (t_rows t) -> Forall closed_end_nonempty ranges -> limit <= 0 ->
+  let res := scan_all t None limit (scan_ranges keys ranges) 0 coins [] in
+  (forall r, In r res <->
+     exists fs, In (row_key r, fs) (t_rows t) /\ requested keys ranges (row_key r)
+                /\ row_fams r = scrub_fams (t_fams t) fs /\ row_fams r <> [])
+  /\ StronglySorted lex_lt (map row_key res)
+  /\ NoDup (map row_key res).
+Proof. exact scan_exact_partial. Qed.
+Print Assumptions C03_readrows_exact_partial.
+
+(* the same without any guard on ranges or keys, in terms of the scanned byte ranges *)
+Theorem C03_readrows_exact_ranges : forall t keys ranges limit coins, asorted (t_rows t) -> limit <= 0 ->
+  let res := scan_all t None limit (scan_ranges keys ranges) 0 coins [] in
+  (forall r, In r res <->
+     exists fs, In (row_key r, fs) (t_rows t) /\ in_any (scan_ranges keys ranges) (row_key r)
+                /\ row_fams r = scrub_fams (t_fams t) fs /\ row_fams r <> [])
+  /\ StronglySorted lex_lt (map row_key res)
+  /\ NoDup (map row_key res).
+Proof. exact scan_exact_ranges. Qed.
+Print Assumptions C03_readrows_exact_ranges.
+
+(* ... and as an equation: the result IS the stored list, filtered, scrubbed *)
+Theorem C03_readrows_exact_eq : forall t keys ranges limit coins, asorted (t_rows t) -> limit <= 0 ->
+  scan_all t None limit (scan_ranges keys ranges) 0 coins [] =
+  map (out_row t) (filter (fun p => has_output t (snd p))
+                     (filter (fun p => in_ranges_b (scan_ranges keys ranges) (fst p)) (t_rows t))).
+Proof. exact scan_exact_eq. Qed.
+Print Assumptions C03_readrows_exact_eq.
+
+(* any filter, any limit: one pass in key order over the covered stored rows, coins threaded in
+   that order ([visit]: emitted iff the row has cells, the filter matches and the scrubbed
+   filter result is non-empty), cut at the limit *)
+Theorem C03_readrows_filter : forall t f limit keys ranges coins, asorted (t_rows t) ->
+  scan_all t f limit (scan_ranges keys ranges) 0 coins [] =
+  limit_cut limit (fst (visit_all t f (filter (fun p => in_ranges_b (scan_ranges keys ranges) (fst p)) (t_rows t)) coins)).
+Proof. exact scan_exact_filter. Qed.
+Print Assumptions C03_readrows_filter.
+
+(* rows_limit = n > 0 returns the first n rows of the unlimited answer (any filter, any ranges,
+   any table) *)
+Theorem C03_limit_first_n : forall t f limit limit0 srs coins, 0 < limit -> limit0 <= 0 ->
+  scan_all t f limit srs 0 coins [] = firstn (Z.to_nat limit) (scan_all t f limit0 srs 0 coins []).
+Proof. exact limit_first_n. Qed.
+Print Assumptions C03_limit_first_n.
+
+(* ---- SampleRowKeys ---- *)
+
+Theorem C03_sample_keys_ok : forall t obs, sample_ok t obs = true ->
+  subseq (map fst obs) (map fst (t_rows t))
+  /\ nondecr_from 0 (map snd obs)
+  /\ (t_rows t <> [] -> obs <> [] /\ last (map fst obs) [] = last (map fst (t_rows t)) [])
+  /\ (t_rows t = [] -> obs = [])
+  /\ (asorted (t_rows t) -> StronglySorted lex_lt (map fst obs)).
+Proof. exact sample_ok_sound. Qed.
+Print Assumptions C03_sample_keys_ok.
+
+Theorem C03_sample_ok_iff : forall t obs, sample_ok t obs = true <-> sample_spec (map fst (t_rows t)) obs.
+Proof. exact sample_ok_iff. Qed.
+Print Assumptions C03_sample_ok_iff.
+
+Theorem C03_sample_last_only : forall t off, t_rows t <> [] -> 0 <= off ->
+  sample_ok t [(last (map fst (t_rows t)) [], off)] = true.
+Proof. exact sample_ok_last_only. Qed.
+Print Assumptions C03_sample_last_only.
+
+(* ---- non-vacuity: the adversarial universe a, a\0, a\0\0, ab, b, \0, \xff ---- *)
+Definition C03_fs : list family := [mkFam [102%N] [mkCol [113%N] [mkCell 0 [118%N] []]]].
+Definition C03_t : table :=
+  mkTable [([102%N], None)]
+          [([0%N], C03_fs); ([97%N], C03_fs); ([97; 0]%N, C03_fs); ([97; 0; 0]%N, C03_fs);
+           ([97; 98]%N, C03_fs); ([98%N], C03_fs); ([255%N], C03_fs)].
+(* (a, ab]  and  [a\0\0, b)  overlap; plus the single key \xff *)
+Definition C03_ranges : list rowrange :=
+  [mkRange (BOpen [97%N]) (BClosed [97; 98]%N); mkRange (BClosed [97; 0; 0]%N) (BOpen [98%N])].
+Definition C03_keys : list bytes := [[255%N]].
+
+Example C03_hyps_met :
+  asorted (t_rows C03_t) /\ Forall (fun p => fst p <> []) (t_rows C03_t)
+  /\ Forall closed_end_nonempty C03_ranges /\ forallb range_ok C03_ranges = true.
+Proof.
+  split; [|split; [|split]].
+  - repeat (constructor; try reflexivity).
+  - repeat (constructor; try discriminate).
+  - repeat (constructor; try discriminate).
+  - reflexivity.
+Qed.
+
+Example C03_scan_example :
+  map row_key (scan_all C03_t None 0 (scan_ranges C03_keys C03_ranges) 0 [] [])
+  = [[97; 0]; [97; 0; 0]; [97; 98]; [255]]%N
+  /\ scan_ranges C03_keys C03_ranges
+     = [ {| rs := [97; 0]%N; re := [98%N] |}; {| rs := [255%N]; re := [255; 0]%N |} ]
+  /\ map row_key (scan_all C03_t None 2 (scan_ranges C03_keys C03_ranges) 0 [] []) = [[97; 0]; [97; 0; 0]]%N
+  /\ length (scan_all C03_t None 0 (scan_ranges [] []) 0 [] []) = 7%nat.
+Proof. vm_compute. repeat split. Qed.
+
+Example C03_validate_example :
+  range_ok (mkRange (BClosed [98%N]) (BOpen [97%N])) = false
+  /\ range_ok (mkRange (BClosed [98%N]) (BOpen [])) = true
+  /\ range_ok (mkRange (BOpen [97%N]) (BOpen [97%N])) = true.
+Proof. vm_compute. repeat split. Qed.
+
+Example C03_sample_example :
+  sample_ok C03_t [([97%N], 10); ([97; 98]%N, 10); ([255%N], 70)] = true
+  /\ sample_ok C03_t [([97; 98]%N, 10); ([97%N], 20); ([255%N], 70)] = false
+  /\ sample_ok C03_t [([97%N], 10)] = false.
+Proof. vm_compute. repeat split. Qed.
